@@ -44,7 +44,11 @@ func genC03(t *rapid.T) C03Case {
 	c.Reg = GenRegSpec(t, c03Outcomes(), mode == ModeStdio)
 	n := rapid.IntRange(1, 5).Draw(t, "nsteps")
 	for i := 0; i < n; i++ {
-		c.Steps = append(c.Steps, GenStep(t, methodsFor(mode), c.Reg, i, 70))
+		st := GenStep(t, methodsFor(mode), c.Reg, i, 70)
+		if mode.Stateful() && rapid.IntRange(0, 9).Draw(t, "stale") == 0 {
+			st.Sess = "stale"
+		}
+		c.Steps = append(c.Steps, st)
 	}
 	if mode.IsStreamable() && rapid.IntRange(0, 19).Draw(t, "wrongpath") == 0 {
 		if Excluded("C03/wrong-path-2xx") {
@@ -93,7 +97,34 @@ func execC03(c C03Case) *Failure {
 		return Failf("C03/connect", "%s: handshake with reference peer failed: %v", c.Mode, err)
 	}
 	defer conn.Close()
+	staleID := ""
 	for _, st := range c.Steps {
+		if st.Sess == "stale" && c.Mode.Stateful() {
+			if staleID == "" {
+				// a second session that is initialised and then deleted
+				c2, err := w.Connect()
+				if err != nil {
+					return Failf("C03/connect", "%s: second handshake failed: %v", c.Mode, err)
+				}
+				staleID = c2.SessionID
+				if ex := w.Direct("DELETE", w.Path, map[string]string{"Mcp-Session-Id": staleID}, nil); ex.Status != 200 {
+					return Failf("C03/delete", "%s: DELETE of a live session answered %d", c.Mode, ex.Status)
+				}
+			}
+			ex := conn.SendWith([]byte(st.Raw), "", Bound(), map[string]string{"Mcp-Session-Id": staleID})
+			if ex.Err != nil {
+				return Failf("C03/no-answer/stale-session", "%s: %s sent under a deleted session id got no answer: %v", c.Mode, st.Raw, ex.Err)
+			}
+			for _, fr := range ex.Frames {
+				if _, f := decodeFrame(fr, true); f != nil {
+					return f
+				}
+			}
+			if !isErrorAnswer(ex) {
+				return Failf("C03/stale-session-served", "%s: %s sent under a deleted session id was answered with status %d %.100q", c.Mode, st.Raw, ex.Status, ex.Body)
+			}
+			continue
+		}
 		exp := ExpectFor(st, c.Reg)
 		expectID := st.ID
 		if exp.NoAnswer && !exp.AnyError {
